@@ -62,6 +62,10 @@ type Script struct {
 	// clean up (used after Stop/cancel).
 	Epilogue  string `json:"epilogue"`
 	EpiNewest bool   `json:"epilogue_release_newest_first"`
+	// Strict: the consumer waits for quiescence after every single receive, so that a discipline
+	// with an unbuffered output reads at most one item from an input between two quiescent
+	// points and producers blocked on a small input buffer keep it full at all times.
+	Strict bool `json:"receive_one_at_a_time,omitempty"`
 }
 
 // Item is what travels through the discipline: globally unique identity.
